@@ -263,8 +263,28 @@ func SynthArgs(recv reflect.Value, name string, mt reflect.Type, variant int) []
 	return args
 }
 
+// nestedSample is a default/prefault value with maps, slices and pointers nested inside (C15).
+func nestedSample(variant int) map[string]any {
+	n := 7
+	return map[string]any{"a": "s", "name": "n", "age": 3, "t": "x",
+		"k": map[string]any{"z": 1, "deep": map[string]any{"w": []any{1, 2}}},
+		"l": []any{1, []any{2, 3}}, "p": &n, "v": variant}
+}
+
 func synthOne(recv reflect.Value, name string, t reflect.Type, variant int) reflect.Value {
 	n := 1 + variant
+	if (name == "Default" || name == "Prefault") && variant > 0 {
+		ns := reflect.ValueOf(nestedSample(variant))
+		switch {
+		case ns.Type() == t:
+			return ns
+		case t == tAny && !strings.Contains(recv.Type().String(), "Discriminated"):
+			if variant == 2 {
+				return reflect.ValueOf(&[]any{[]any{1, []any{2, map[string]any{"q": 1}}}}[0]).Elem()
+			}
+			return reflect.ValueOf(&[]any{nestedSample(variant)}[0]).Elem()
+		}
+	}
 	switch {
 	case t == tRegexp:
 		return reflect.ValueOf(reSample)
